@@ -12,6 +12,7 @@ import (
 	"fmt"
 	"os"
 	"sync"
+	"time"
 
 	"github.com/blang/semver"
 
@@ -19,6 +20,9 @@ import (
 	"github.com/janelia-flyem/dvid/storage"
 	"github.com/janelia-flyem/dvid/storage/badger"
 )
+
+// GraceAfter is the pause between the return of the N-th write and the process exit in After mode.
+var GraceAfter = 10 * time.Millisecond
 
 // ExitCode is the status of a process killed by an injected crash.
 const ExitCode = 77
@@ -68,10 +72,13 @@ var (
 	mu        sync.Mutex
 	metaCount int
 	dataCount int
+	metaDone  int // writes whose store call has returned
+	dataDone  int
 	trace     []string // metadata writes, in order: "P<class>[:id]" / "D<class>[:id]"
 	planClass string   // "meta" | "data" | ""
 	planN     int
 	planMode  string
+	dying     bool
 )
 
 // Plan arranges process death at the n-th (1-based) write of the class.
@@ -79,6 +86,13 @@ func Plan(class string, n int, mode string) {
 	mu.Lock()
 	planClass, planN, planMode = class, n, mode
 	mu.Unlock()
+}
+
+// Done returns the number of metadata and data writes whose store call has returned.
+func Done() (meta, data int) {
+	mu.Lock()
+	defer mu.Unlock()
+	return metaDone, dataDone
 }
 
 // Counts returns the number of metadata and data writes seen so far and the metadata trace.
@@ -110,6 +124,11 @@ func label(op string, tk storage.TKey) string {
 // around runs one write with the crash plan applied.
 func around(class, lbl string, f func() error) error {
 	mu.Lock()
+	if dying {
+		// the process is in its grace period before an injected death: no further write may start
+		mu.Unlock()
+		select {}
+	}
 	var n int
 	if class == "meta" {
 		metaCount++
@@ -120,13 +139,29 @@ func around(class, lbl string, f func() error) error {
 		n = dataCount
 	}
 	hit := planClass == class && planN == n
+	if os.Getenv("CRASHKV_DEBUG") != "" {
+		fmt.Fprintf(os.Stderr, "crashkv %s %s n=%d plan=%s:%d:%s hit=%v\n", class, lbl, n, planClass, planN, planMode, hit)
+	}
 	mode := planMode
 	mu.Unlock()
 	if hit && mode == Before {
 		os.Exit(ExitCode)
 	}
 	err := f()
+	mu.Lock()
+	if class == "meta" {
+		metaDone++
+	} else {
+		dataDone++
+	}
+	mu.Unlock()
 	if hit && mode == After {
+		// the write has returned; a short grace before the process dies (the engine is trusted to keep
+		// a write it acknowledged — the drivers re-execute a point whose outcome contradicts that)
+		mu.Lock()
+		dying = true
+		mu.Unlock()
+		time.Sleep(GraceAfter)
 		os.Exit(ExitCode)
 	}
 	return err
